@@ -666,3 +666,14 @@ def replay_recorded(path, lib, hname, hsrcs, trace_spec, cfg, extra_args=(), xss
         return 1
     finally:
         shutil.rmtree(tmp, ignore_errors=True)
+
+
+def apalache(spec, args, workdir, timeout=600):
+    """Runs apalache-mc check on a copy of spec/<spec>.tla inside workdir (Apalache writes _apalache-out there).
+    Returns (ok, tail of the output)."""
+    os.makedirs(workdir, exist_ok=True)
+    src = os.path.join(SPEC, spec if spec.endswith(".tla") else spec + ".tla")
+    shutil.copy(src, workdir)
+    r = sh(["timeout", "-k", "5", str(int(timeout)), "apalache-mc", "check"] + list(args) + [os.path.basename(src)], cwd=workdir)
+    ok = r.returncode == 0 and "EXITCODE: OK" in r.stdout
+    return ok, r.stdout[-1500:]
